@@ -458,17 +458,19 @@ def end_world(ms, start):
 # rendering
 
 
-def render_dsl(ms, top=True, force_close=False):
-    """force_close: something is appended after the chain, so a trailing wrapper must be closed explicitly."""
+def render_dsl(ms, top=True, force_close=False, open_tail=False):
+    """force_close: something is appended after the chain, so a trailing wrapper must be closed explicitly.
+    open_tail: this (inner) chain ends where its enclosing wrapper is itself left open up to the end of the step, so a
+    wrapper that ends it may be left open as well (several wrappers closed implicitly at once)."""
     out = []
     for i, m in enumerate(ms):
         tilde = "~" if m.deferred else ""
         if m.inner is not None:
-            inner = render_dsl(m.inner, False)
             is_last_in_step = (i == len(ms) - 1) or ms[i + 1].deferred
             really_last = i == len(ms) - 1
-            close = "" if (top and is_last_in_step and not m.explicit_close and not (force_close and really_last)) else " <<<"
-            out.append("%s%s >>> %s%s" % (tilde, m.spelling, inner, close))
+            leave_open = (top or open_tail) and is_last_in_step and not m.explicit_close and not (force_close and really_last)
+            inner = render_dsl(m.inner, False, False, leave_open)
+            out.append("%s%s >>> %s%s" % (tilde, m.spelling, inner, "" if leave_open else " <<<"))
         else:
             s = tilde + m.spelling
             if m.operands:
@@ -579,7 +581,12 @@ def gen_prog(pid, rng, kind, length, force=None):
         src_cap = 0
         if start == "P" and rng.random() < 0.5:
             # an initial value that binds weaker than a method call: unary, binary, cast, deref of a reference
-            src = rng.choice(["!%s", "%s ^ 3", "%s as u32", "*&%s", "%s + 1", "%s >> 1"]) % src
+            if rng.random() < 0.25:
+                # ... also when the operand of the prefix operator is a literal
+                src = rng.choice(["!%du32", "-%di64 as u32", "!!%du32", "*&%du32"]) % rng.randint(1, 200)
+                p.tags.add("sp:low_precedence_initial_literal")
+            else:
+                src = rng.choice(["!%s", "%s ^ 3", "%s as u32", "*&%s", "%s + 1", "%s >> 1"]) % src
             p.tags.add("sp:low_precedence_initial")
         elif rng.random() < 0.15:
             src_cap = g.nid()
@@ -975,6 +982,43 @@ def build_corpus(tier, seed):
                 for attempt in range(4):
                     if keep(gen_forced(0, rng, next_kind(), w, pickw, 0)):
                         break
+    # (b') a wrapper left open at the end of a step (implicit close, possibly several levels at once), the next step opened
+    #      by a deferred wrapper or a deferred plain operator (step boundaries and wrapper nesting interact here)
+    dk = [0]
+    defer_kinds = ["join", "join_spawn", "spawn", "join"]
+    for (w, op) in list(G.WRAPS.keys()) + [("O", "inspect"), ("R", "inspect")]:
+        for second_kind in ("wrapper", "plain", "wrapper_open"):
+            def pickw1(g, world, is_last, nth, op=op):
+                for _ in range(30):
+                    m = g.wrapper(world, 0, False)
+                    if m is not None and m.op == op:
+                        m.explicit_close = False
+                        # leave a trailing inner wrapper open too, when there is one
+                        if m.inner and m.inner[-1].inner is not None:
+                            m.inner[-1].explicit_close = False
+                        return m
+                return None
+
+            def second1(g, cur, is_last, second_kind=second_kind):
+                m2 = None
+                if second_kind != "plain":
+                    for _ in range(30):
+                        m2 = g.wrapper(cur, 0, False)
+                        if m2 is not None:
+                            m2.explicit_close = second_kind == "wrapper"
+                            break
+                if m2 is None:
+                    ts = g.transitions(cur, False)
+                    if not ts:
+                        return None
+                    m2 = g.mk(g.rng.choice(ts))
+                m2.deferred = True
+                return m2
+            for attempt in range(4):
+                dk[0] += 1
+                if keep(gen_forced(0, rng, defer_kinds[dk[0] % len(defer_kinds)], w, pickw1, 0, second=second1)):
+                    progs[-1].tags.add("sp:open_wrapper_then_deferred_" + second_kind)
+                    break
     # (c) adjacent operator pairs (sampled in quick, all typeable ones in thorough)
     pairs = []
     for w in WORLDS:
@@ -1006,6 +1050,18 @@ def build_corpus(tier, seed):
         length = rng.choice([0, 1, 2, 3, 4, 5, 6, 8] if tier == "quick" else [0, 1, 2, 3, 4, 6, 8, 12, 16])
         keep(gen_prog(0, rng, kind, length))
     return progs
+
+
+def shadow_wrap(body):
+    """"Shadowed environment": the caller's module has its own items called futures / tokio / std / core / alloc / join, so
+    every path the expansion uses for its own purposes has to be absolute to keep meaning the same thing (C17: internal
+    names never clash).  The twins' own operand text reaches the futures crate through the alias fx (use futures as fx)."""
+    import re
+    body = re.sub(r"(?<![:\w])futures::", "fx::", body)
+    return ("pub use shadowed::*;\npub mod shadowed {\n    use super::*;\n"
+            "    mod futures { pub fn join() -> u8 { 0 } pub mod future { pub fn ready() {} } }\n"
+            "    mod tokio { pub fn spawn() {} }\n    mod std { pub mod thread { pub struct Builder; } }\n"
+            "    mod core {}\n    mod alloc {}\n    mod join {}\n\n" + body + "\n}\n")
 
 
 def write_crate(outdir, join_repo, vrt_path, progs, nshards=16, tag="x", skip=()):
@@ -1043,8 +1099,12 @@ opt-level = 0
                 continue
             fns.append("// twin %d\n%s" % (p.id, r[0]))
             entries.append(r[1])
-        src = ("// generated by gen/zoo.py — do not edit\n#![allow(unused_imports, unused_mut, unused_variables, unused_parens, unused_braces, clippy::all)]\n"
-               "use join::*;\nuse vrt::zoo::*;\nuse futures::{FutureExt, TryFutureExt, StreamExt, TryStreamExt};\n\n" + "\n".join(fns) +
+        body = "\n".join(fns)
+        if si % 4 == 1:
+            body = shadow_wrap(body)
+            entries = [e.replace('tags: "', 'tags: "shadowed,', 1) for e in entries]
+        src = ("// generated by gen/zoo.py — do not edit\n#![allow(unused_imports, unused_mut, unused_variables, unused_parens, unused_braces, dead_code, clippy::all)]\n"
+               "use join::*;\nuse vrt::zoo::*;\nuse futures as fx;\nuse futures::{FutureExt, TryFutureExt, StreamExt, TryStreamExt};\n\n" + body +
                "\n\npub static TWINS: &[Twin] = &[\n    " + ",\n    ".join(entries) + "\n];\n\nfn main() {\n    vrt::zoo::main(TWINS);\n}\n")
         with open(os.path.join(outdir, "src", "bin", "zoo_%s_%02d.rs" % (tag, si)), "w") as f:
             f.write(src)
